@@ -6,7 +6,7 @@ CFG = {
  'ocaml_flags': '-rectypes -thread',
  # kernel primitives (Coq.Floats.PrimFloat: `Primitive float`, `Primitive ltb`), listed by Print Assumptions
  # for the one theorem stated over the executable binary64 instance; no logical axiom is used
- 'axioms': ['PrimFloat.float', 'PrimFloat.ltb'],
+ 'axioms': ["ClassicalDedekindReals.sig_forall_dec", "ClassicalDedekindReals.sig_not_dec", "Classical_Prop.classic", "FunctionalExtensionality.functional_extensionality_dep", 'PrimFloat.float', 'PrimFloat.ltb'],
  'uses_gen': False,
  'rule': 'events are synthesised from a recipe (present wires as cyclic runs, response-shaped wire pulses with '
          'induced neighbour signals, three-row pad patterns starting one sample before the wire pulse) and built with '
@@ -46,3 +46,5 @@ CFG = {
  'note': 'rel-* lines are implementation-only relations (model prints holds); relkf-fullring / relkf-padtie lines are '
          'expected to print `fails ...` on the unchanged tree (open findings F3 full_ring_256, F6 pad_amplitude_tie)',
 }
+
+CFG["level_extra"] = ("The zf-antisymmetry premise of the mirror theorem is discharged for the real (exact-arithmetic) centroid formula of matching.rs and the row positions of padwing/map.rs (C13_centroid_antisymmetric_real, C13_pad_row_z_antisymmetric, C13_mirror_equivariant_real); what remains between that and binary64 is rounding, bounded by the property's 1e-9 m and measured by rel-mir.")
